@@ -18,6 +18,7 @@ const (
 	vkRef
 	vkAllOf   // allOf [ $ref ] plus own properties
 	vkUntyped // no type at all
+	vkTuple   // array whose items is a list of schemas
 )
 
 type vProp struct {
@@ -43,6 +44,8 @@ type vNode struct {
 	// ref / allOf
 	ref  string
 	desc string
+	// tuple
+	tuple []*vNode
 }
 
 type vDefs map[string]*vNode
@@ -133,6 +136,12 @@ func (n *vNode) build() *spec.Schema {
 		n.buildProps(s)
 	case vkUntyped:
 		n.buildProps(s)
+	case vkTuple:
+		s.Type = spec.StringOrArray{"array"}
+		s.Items = &spec.SchemaOrArray{}
+		for _, t := range n.tuple {
+			s.Items.Schemas = append(s.Items.Schemas, *t.build())
+		}
 	}
 	return s
 }
